@@ -222,47 +222,51 @@ Definition decode_string (lit : bytes) : outcome bytes :=
 
 Definition is_digit19 (c : N) : bool := (49 <=? c) && (c <=? 57).
 
-(* the longest prefix that is an unsigned number literal of the JSON grammar: (literal, rest) *)
-Definition scan_unsigned (s1 : bytes) : option (bytes * bytes) :=
-  match s1 with
+(* the three parts of an unsigned number literal of the JSON grammar; each returns (part, rest) *)
+Definition scan_int (s : bytes) : option (bytes * bytes) :=
+  match s with
   | [] => None
   | c :: r1 =>
-    let int_part :=
-      if c =? 48 then Some ([48], r1)
-      else if is_digit19 c then let '(ds, r2) := span is_digit r1 in Some (c :: ds, r2)
-      else None in
-    match int_part with
+    if c =? 48 then Some ([48], r1)
+    else if is_digit19 c then let '(ds, r2) := span is_digit r1 in Some (c :: ds, r2)
+    else None
+  end.
+
+Definition scan_frac (s : bytes) : option (bytes * bytes) :=
+  match s with
+  | c :: r =>
+    if c =? 46 then
+      let '(ds, r') := span is_digit r in
+      match ds with [] => None | _ => Some (46 :: ds, r') end
+    else Some ([], s)
+  | [] => Some ([], s)
+  end.
+
+Definition scan_exp (s : bytes) : option (bytes * bytes) :=
+  match s with
+  | e :: r =>
+    if (e =? 101) || (e =? 69) then
+      let '(sg, r1) := match r with
+                       | x :: r' => if (x =? 43) || (x =? 45) then ([x], r') else ([], r)
+                       | [] => ([], r)
+                       end in
+      let '(ds, r2) := span is_digit r1 in
+      match ds with [] => None | _ => Some (e :: sg ++ ds, r2) end
+    else Some ([], s)
+  | [] => Some ([], s)
+  end.
+
+(* the longest prefix that is an unsigned number literal: (literal, rest) *)
+Definition scan_unsigned (s : bytes) : option (bytes * bytes) :=
+  match scan_int s with
+  | None => None
+  | Some (ip, s2) =>
+    match scan_frac s2 with
     | None => None
-    | Some (ip, s2) =>
-      let frac :=
-        match s2 with
-        | c2 :: r3 =>
-          if c2 =? 46 then
-            let '(ds, r4) := span is_digit r3 in
-            match ds with [] => None | _ => Some (46 :: ds, r4) end
-          else Some ([], s2)
-        | [] => Some ([], s2)
-        end in
-      match frac with
+    | Some (fp, s3) =>
+      match scan_exp s3 with
       | None => None
-      | Some (fp, s3) =>
-        let exp :=
-          match s3 with
-          | e :: r5 =>
-            if (e =? 101) || (e =? 69) then
-              let '(sg, r6) := match r5 with
-                               | x :: r' => if (x =? 43) || (x =? 45) then ([x], r') else ([], r5)
-                               | [] => ([], r5)
-                               end in
-              let '(ds, r7) := span is_digit r6 in
-              match ds with [] => None | _ => Some (e :: sg ++ ds, r7) end
-            else Some ([], s3)
-          | [] => Some ([], s3)
-          end in
-        match exp with
-        | None => None
-        | Some (ep, s4) => Some (ip ++ fp ++ ep, s4)
-        end
+      | Some (ep, s4) => Some (ip ++ fp ++ ep, s4)
       end
     end
   end.
